@@ -640,7 +640,7 @@ class Campaign:
             c["no_overwrite:" + ("no-conflict" if not present else "all-present" if len(present) == len(gen) else "partially-populated")] += 1
         c["generate_support=" + o["gs"] + (",omit" if o["omit"] else "")] += 1
         c["status=" + ob["st"]] += 1
-        if ob["st"] != "ok" or o["no"]:
+        if o["no"]:
             return
         for r in gen:
             if r not in pre:
@@ -1010,7 +1010,7 @@ def run(ctx):
         want["read-only foreign file overwritten by an unprivileged run"] = [k for k in cl if k.startswith("over:foreign,read-only")]
     for what, ks in want.items():
         if not ks:
-            raise MachineryFailure("history class never executed: %s" % what)
+            raise MachineryFailure("history class never attempted: %s" % what)
     unstable = sorted({"%s:%s" % (k[0], r) for k, fr in camp.fresh.items() for r in fr["unstable"]})
     if unstable:
         ctx.not_exercised("content clause for files whose fresh content is not reproducible between two runs: %s" % ", ".join(unstable[:6]))
@@ -1049,6 +1049,15 @@ def selftests(ctx, camp):
     camp.need_fresh([s0])
     obs = camp.sb.execute([camp.job("h0", s0)])["h0"]
     saved = (ctx.cov["traces_validated_against_impl"], camp.classes.copy(), camp.nrun)
+    # what a tree that satisfies the property leaves behind; used instead of the recording when the tree under test does not
+    files = camp.fresh[("c", "small", True, "inproc", okey(base[0]["o"]))]["files"]
+    ideal = [{"a": "run", "st": "ok", "exc": None, "ev": None, "snap": {r: [v[0], 0o444, v[2]] for r, v in files.items()}},
+             {"a": "run", "st": "ok", "exc": None, "ev": None, "snap": {r: [v[0], 0o644, v[2]] for r, v in files.items()}},
+             {"a": "run", "st": "error", "exc": "PermissionError", "ev": None, "snap": {r: [v[0], 0o644, v[2]] for r, v in files.items()}}]
+    same = [(o["st"], o["snap"]) for o in obs] == [(o["st"], o["snap"]) for o in ideal]
+    ctx.cov["binding_selftest_source"] = "recorded from the tree under test" if same else "synthetic (the tree under test does not behave as P demands)"
+    if not same:
+        obs = ideal
 
     def variant(mut, exp=None):
         o2 = json.loads(json.dumps(obs))
